@@ -608,3 +608,35 @@ func TestKnownKVCommandsOnHLLKey(t *testing.T) {
 		return false, ""
 	})
 }
+
+// A batchable write (SET, SETEX, single-key DEL, HMSET) that is refused when it is applied
+// aborts the whole open engine write batch: the batchable writes of OTHER requests that one
+// call of applyEntries had put into it before are answered with the error and dropped. Which
+// entries share a call is decided by how raft hands out committed entries - timing, size
+// limits, restarts - on each replica for itself. The same log therefore leaves `a` set on a
+// replica that applied the two entries in separate calls and unset on one that applied them
+// together.
+func TestKnownBatchAbortDropsCoBatchedWrites(t *testing.T) {
+	known.Probe(t, findingBatchAbort, func() (bool, string) {
+		run := func(sizes []int) string {
+			sim, err := simkv.New(simkv.Options{Engine: "mem"})
+			if err != nil {
+				return "HARNESS: " + err.Error()
+			}
+			defer sim.Close()
+			ents := []pb.Entry{
+				simkv.BuildEntry(1, 1700000000e9, []simkv.LogCmd{{ID: 101, Args: []string{"set", "t:a", "1"}}}),
+				simkv.BuildEntry(2, 1700000000e9+4, []simkv.LogCmd{{ID: 102, Args: []string{"set", "keywithouttable", "x"}}}),
+			}
+			sim.Parts[0].ApplyLog(ents, sizes, 0)
+			return sim.Do("get", "default:t:a").String()
+		}
+		together, apart := run(nil), run([]int{1, 1})
+		if together != apart {
+			return true, fmt.Sprintf("log [SET t:a 1][SET keywithouttable x]: GET t:a -> %s on a replica that applied both entries in one call, %s on one that applied them in two", together, apart)
+		}
+		return false, ""
+	})
+}
+
+const findingBatchAbort = "C07-batch-abort-drops-cobatched-writes"
